@@ -1,6 +1,7 @@
 use std::collections::{HashMap, HashSet};
 
 use crate::go::goast as ast;
+use crate::go::goty;
 
 // Public entry: eliminate unused local variables from Go AST while
 // preserving side-effecting expressions (primarily calls).
@@ -70,7 +71,7 @@ fn dce_block_with_live(
                                 live.insert(u.clone());
                             }
                             // Keep side effects before the declaration in final order
-                            out.push(ast::Stmt::Expr(v));
+                            out.push(keep_effects_of_dead_value(v));
                         }
                         // Keep declaration without initializer
                         out.push(ast::Stmt::VarDecl {
@@ -95,7 +96,7 @@ fn dce_block_with_live(
                         for u in &used_rhs {
                             live.insert(u.clone());
                         }
-                        out.push(ast::Stmt::Expr(v));
+                        out.push(keep_effects_of_dead_value(v));
                     }
                 }
             }
@@ -116,7 +117,7 @@ fn dce_block_with_live(
                         for u in &used_rhs {
                             live.insert(u.clone());
                         }
-                        out.push(ast::Stmt::Expr(value));
+                        out.push(keep_effects_of_dead_value(value));
                     }
                 }
             }
@@ -593,8 +594,39 @@ fn free_vars_in_block(b: &ast::Block) -> HashSet<String> {
     &used - &declared
 }
 
+fn is_pure_go_builtin(func: &ast::Expr) -> bool {
+    matches!(func, ast::Expr::Var { name, .. } if name == "append" || name == "len")
+}
+
+fn is_integer_type(ty: &goty::GoType) -> bool {
+    matches!(
+        ty,
+        goty::GoType::TInt8
+            | goty::GoType::TInt16
+            | goty::GoType::TInt32
+            | goty::GoType::TInt64
+            | goty::GoType::TUint8
+            | goty::GoType::TUint16
+            | goty::GoType::TUint32
+            | goty::GoType::TUint64
+    )
+}
+
+fn keep_effects_of_dead_value(v: ast::Expr) -> ast::Stmt {
+    match &v {
+        ast::Expr::Call { func, .. } if !is_pure_go_builtin(func) => ast::Stmt::Expr(v),
+        _ => ast::Stmt::Assignment {
+            name: "_".to_string(),
+            value: v,
+        },
+    }
+}
+
 fn expr_has_side_effects(e: &ast::Expr) -> bool {
     match e {
+        ast::Expr::Call { func, args, .. } if is_pure_go_builtin(func) => {
+            args.iter().any(expr_has_side_effects)
+        }
         ast::Expr::Call { .. } => true,
         ast::Expr::Block { stmts, expr, .. } => {
             // any side-effect in nested statements or nested expr
@@ -605,10 +637,13 @@ fn expr_has_side_effects(e: &ast::Expr) -> bool {
                     .unwrap_or(false)
         }
         ast::Expr::FieldAccess { obj, .. } => expr_has_side_effects(obj),
-        ast::Expr::Index { array, index, .. } => {
-            expr_has_side_effects(array) || expr_has_side_effects(index)
-        }
+        ast::Expr::Index { .. } => true,
         ast::Expr::UnaryOp { expr, .. } => expr_has_side_effects(expr),
+        ast::Expr::BinaryOp {
+            op: ast::GoBinaryOp::Div,
+            ty,
+            ..
+        } if is_integer_type(ty) => true,
         ast::Expr::BinaryOp { lhs, rhs, .. } => {
             expr_has_side_effects(lhs) || expr_has_side_effects(rhs)
         }
